@@ -399,3 +399,22 @@ Example pawn_moves_example :
   forallb (fun m => existsb (N.eqb m) (ex_spec_list ex_state)) (pawn_moves ex_state) = true /\
   forallb (fun m => existsb (N.eqb m) (pawn_moves ex_state)) (ex_spec_list ex_state) = true.
 Proof. vm_compute. repeat split; reflexivity. Qed.
+
+(* the mirrored position with Black to move (Black Ke8 Pa2 Pe7 Pd4, White Ke1 Nb1 Pc3 Pe4, e.p. target e3) *)
+Definition ex_state_black : state :=
+  mkState (mkBoard (2^28 + 2^18) (2^1) 0 0 0 (2^4) (2^8 + 2^52 + 2^27) 0 0 0 0 (2^60))
+          Black false false false false (Some 20) 0 1.
+
+Example pawn_moves_example_black :
+  legal_posb ex_state_black = true /\
+  map (fun m => (m_origin m, m_dest m, m_promotion m, m_is_ep m, m_capture m)) (pawn_moves ex_state_black) =
+    [(27, 19, None, false, None); (52, 44, None, false, None);
+     (8, 0, Some Queen, false, None); (8, 0, Some Rook, false, None);
+     (8, 0, Some Bishop, false, None); (8, 0, Some Knight, false, None);
+     (52, 36, None, false, None);
+     (8, 1, Some Queen, false, Some Knight); (8, 1, Some Rook, false, Some Knight);
+     (8, 1, Some Bishop, false, Some Knight); (8, 1, Some Knight, false, Some Knight);
+     (27, 20, None, true, Some Pawn); (27, 18, None, false, Some Pawn)] /\
+  (forallb (fun m => existsb (N.eqb m) (ex_spec_list ex_state_black)) (pawn_moves ex_state_black) &&
+   forallb (fun m => existsb (N.eqb m) (pawn_moves ex_state_black)) (ex_spec_list ex_state_black)) = true.
+Proof. vm_compute. repeat split; reflexivity. Qed.
